@@ -813,7 +813,12 @@ func mergeServerConfig(dst, src *pb.ServerConfig) error {
 
 	var advancedSettings *pb.ServerAdvancedSettings
 	if src.AdvancedSettings != nil {
-		advancedSettings = src.GetAdvancedSettings()
+		// Members of the advanced settings that the patch doesn't set keep their values.
+		advancedSettings = &pb.ServerAdvancedSettings{}
+		if dst.AdvancedSettings != nil {
+			proto.Merge(advancedSettings, dst.AdvancedSettings)
+		}
+		proto.Merge(advancedSettings, src.AdvancedSettings)
 	} else {
 		advancedSettings = dst.GetAdvancedSettings()
 	}
